@@ -1396,7 +1396,7 @@ def replay(ctx, path):
             else:
                 print("   verdict : FAILS (no output)")
                 bad += 1
-        elif t[0] == "H":
+        elif t[0] in ("H", "HN"):
             txt = bytes.fromhex(r_[3:]).decode(PY_CODEC.get(t[2], "utf-8"), "replace") if r_ and r_.startswith("ok:") else None
             print("   output  :", repr(txt)[:400])
             evs = S4.parse_script(t[8:])
